@@ -14,7 +14,7 @@ ASSUMPTIONS = ['tm_exact oracle (self-validated each shard, incl. numerical conf
                'psf/convergence for the sign convention)']
 N = {'quick': 1500, 'thorough': 25000}
 SHARDS = {'quick': 16, 'thorough': 32}
-REQUIRED_COUNTERS = ['alias_sequences', 'near_axis_cases', 'psfconv_forward', 'psfconv_inverse', 'psfconv_agreement']
+REQUIRED_COUNTERS = ['across_antimeridian_cases', 'alias_sequences', 'near_axis_cases', 'psfconv_forward', 'psfconv_inverse', 'psfconv_agreement']
 
 
 def plan(tier, seed):
